@@ -55,6 +55,7 @@ def initSt (engine : String) : Option St :=
   | "connmap" => some (.connmap Option.none)
   | "gossip" => some (.gossip {})
   | "registry" => some (.registry {})
+  | "registry-asis" => some (.registry { cfg := S2S.Registry.Cfg.asIs })
   | _ => Option.none
 
 def stepSt (st : St) (line : String) : St × String :=
